@@ -161,6 +161,13 @@ void Stats::runSocket() {
 
 void Stats::processMsg(int sockfd) {
   std::array<char, 64> err_buf = {};
+  // Declared first so it runs last, on every exit path. The destructor frees
+  // *this as soon as it sees thread_count_ == 0, so notify under the lock.
+  OOMD_SCOPE_EXIT {
+    std::lock_guard<std::mutex> lock(thread_mutex_);
+    thread_count_--;
+    thread_exited_.notify_one();
+  };
   OOMD_SCOPE_EXIT {
     if (::close(sockfd) < 0) {
       OLOG << "Stats server error: closing file descriptor: "
@@ -216,10 +223,6 @@ void Stats::processMsg(int sockfd) {
     OLOG << "Stats server error: writing to socket: "
          << ::strerror_r(errno, err_buf.data(), err_buf.size());
   }
-  std::unique_lock<std::mutex> lock(thread_mutex_);
-  thread_count_--;
-  lock.unlock();
-  thread_exited_.notify_one();
 }
 
 std::unordered_map<std::string, int> Stats::getAll() {
